@@ -62,7 +62,9 @@ def _cstr_upto(I, p, n):
         if q >= o.size: raise MemError("string read past end of %s" % o.name)
         b = I.mem.byte_at(o, q)
         if not isinstance(b, int):
-            if b is E.UNINIT: raise MemError("string read of uninitialised byte in %s" % o.name)
+            if b is E.UNINIT:
+                if I.mem.on_uninit == 'zero': b = 0
+                else: raise MemError("string read of uninitialised byte in %s" % o.name)
             b = I.ctx.concretize(b, 'string byte')
         if b == 0: break
         out.append(b); q += 1
